@@ -201,8 +201,48 @@ def storm(ctx, acc, alg, n):
         shutil.rmtree(d, ignore_errors=True)
 
 
+def history(ctx, acc, n):
+    """Signings in ONE process interleaved with 'skip' runs on already signed envelopes: every signing of an unsigned envelope
+    must still append exactly one verifying block (per-call state of the signer must not survive a call)."""
+    d = ctx.tmpdir("hist")
+    try:
+        kd = os.path.join(d, "keys")
+        os.makedirs(kd)
+        keys = {}
+        for alg in ("es-256", "eddsa"):
+            keys[alg] = CO.gen_key(alg)
+            CO.write_key(keys[alg], kd, alg, "pem")
+        desc = {"SUIT_Envelope_Tagged": {"suit-authentication-wrapper": {"SuitDigest": {"suit-digest-algorithm-id": "cose-alg-sha-256"}},
+                                         "suit-manifest": {"suit-manifest-version": 1, "suit-manifest-sequence-number": 1, "suit-common": {}},
+                                         "suit-integrated-payloads": {"#p": "00"}}}
+        data = sut.create_mem(desc)
+        unsigned, signed = os.path.join(d, "u.suit"), os.path.join(d, "s.suit")
+        with open(unsigned, "wb") as fh:
+            fh.write(data)
+        sut.sign_single(unsigned, signed, "eddsa", 1, "eddsa", kd)
+        pattern = ["sign", "skip", "sign", "sign", "remove-old", "sign", "skip", "skip", "sign"]
+        for i in range(n):
+            step = pattern[i % len(pattern)]
+            alg = ("es-256", "eddsa")[i % 2]
+            out = os.path.join(d, f"o{i}.suit")
+            if step == "sign":
+                sut.sign_single(unsigned, out, alg, 100 + i, alg, kd)
+                with open(out, "rb") as fh:
+                    problems, _ = check_signed(data, fh.read(), alg, 100 + i, keys[alg].public_key())
+                acc.case(nt_key=("history", i), classes=["history", "history:sign-after-" + (pattern[(i - 1) % len(pattern)] if i else "start")], sample={"history": pattern[: i % len(pattern) + 1]} if i < 9 else None,
+                         sample_key="history")
+                if problems:
+                    raise Violation(f"signing #{i} of an unsigned envelope after the steps {pattern[: i % len(pattern)]} in the same process: " + "; ".join(problems[:2]),
+                                    "exactly one new verifying block regardless of earlier calls", bucket="history:" + problems[0][:30])
+            else:
+                sut.sign_single(signed, out, alg, 100 + i, alg, kd, step)
+                acc.case(classes=["history", f"history:{step}"])
+    finally:
+        shutil.rmtree(d, ignore_errors=True)
+
+
 def plan(ctx):
-    specs = []
+    specs = [{"kind": "history", "n": 45 if not ctx.thorough else 900}]
     n = 10
     per = 150 if not ctx.thorough else 1500
     for i in range(n):
@@ -217,6 +257,12 @@ def run_shard(ctx, spec):
     from hypothesis import strategies as st
 
     acc = Acc()
+    if spec["kind"] == "history":
+        try:
+            history(ctx, acc, spec["n"])
+        except Violation as v:
+            acc.fail("history", {"history": True}, v.observed, v.expected, bucket=v.bucket)
+        return acc
     if spec["kind"] == "storm":
         try:
             storm(ctx, acc, spec["alg"], spec["n"])
@@ -239,7 +285,9 @@ def run_shard(ctx, spec):
 def replay(ctx, check, case):
     acc = Acc()
     try:
-        if check == "storm":
+        if check == "history":
+            history(ctx, acc, 45)
+        elif check == "storm":
             storm(ctx, acc, case["alg"], 3000)
         else:
             judge(case, acc, ctx)
@@ -250,7 +298,7 @@ def replay(ctx, check, case):
 
 def finalize(ctx, m, ev):
     c = m["counters"]
-    need = [f"alg:{a}" for a in CO.ALGS] + ["enc:der", "ctx:json", "route:cli", "rich-envelope", "storm-leading-zero", "kid:b0", "kid:b4294967295"]
+    need = [f"alg:{a}" for a in CO.ALGS] + ["enc:der", "ctx:json", "route:cli", "rich-envelope", "storm-leading-zero", "kid:b0", "kid:b4294967295", "history"]
     for n in need:
         if not c.get(n):
             raise boot.HarnessError(f"interesting class {n} is empty")
